@@ -317,6 +317,11 @@ def c15(run, replay=None):
         # values that must survive the trip: nested / unicode / numeric / boolean come from registered results
         base.append(task(('debug', lit("<<end>> a=") + [('v', ['a'])] + lit(" b=") + [('v', ['b'])])))
         cases.append(dict(files={"main.rh": dict(tasks=base)}, desc=dict(skeleton=kinds)))
+    # the histories of the C02 generator: task vars (also shadowing a store variable), loop items and registered
+    # results next to probe tasks that print what is visible AFTERWARDS - a task's own vars must not outlive the task
+    # under become either
+    for s in range(n // 2):
+        cases.append(dict(files={"main.rh": dict(tasks=PE.c02_history(rng, rng.randint(2, 6)))}, desc=dict(history=s)))
     plain = E.run_impls(cases, timeout=15)
     bec = E.run_impls([dict(c, files=with_become(c["files"]), world_writable=True) for c in cases], timeout=15)
     nontrivial = set()
